@@ -55,7 +55,7 @@ Qed.
 
 Record ok_facts (s : setup) : Prop := {
   of_dt : 0 < dt (s_tk s);
-  of_tab : table_ok (s_tk s) (filter_time (in_window (s_tk s)) (s_tab s)) = true;
+  of_tab : tab_ok s = true;
   of_started : started s = true;
   of_nodup : nodupb (map fstep (s_raw s)) = true;
   of_readable : readable (s_raw s) (s_disk s) = true;
@@ -76,12 +76,19 @@ Qed.
 Lemma last_map_seq {A} (f : nat -> A) k d : last (map f (seq 0 (S k))) d = f k.
 Proof. rewrite seq_S, map_app. cbn [map]. apply last_last. Qed.
 
-Lemma m_rows_spec s n : ok_facts s -> 0 <= n -> m_rows s n = released_at (s_tk s) (s_tab s) n.
+Lemma m_rows_spec s n : ok_facts s -> 0 <= n -> m_rows s n = sp_rows s n.
 Proof.
-  intros F Hn. unfold m_rows. pose proof (of_started s F) as St. unfold started in St.
-  destruct (rel_init (s_tk s) None false (s_tab s)) as [|D groups steps] eqn:E; [discriminate|].
-  rewrite (release_schedule (s_tk s) false (s_tab s) D groups steps (of_dt s F) (of_tab s F) E (S (Z.to_nat n))).
-  rewrite last_map_seq. rewrite Z2Nat.id by exact Hn. reflexivity.
+  intros F Hn. unfold m_rows, sp_rows. pose proof (of_started s F) as St. pose proof (of_tab s F) as Tb.
+  unfold started in St. unfold tab_ok in Tb.
+  destruct (s_cont s) as [f|].
+  - (* continuous release: C04's T2 *)
+    destruct (rel_init (s_tk s) (Some f) false (s_tab s)) as [|D groups steps] eqn:E; [discriminate|].
+    rewrite (continuous_schedule (s_tk s) f false (s_tab s) D groups steps (of_dt s F) Tb E (S (Z.to_nat n))).
+    rewrite last_map_seq. rewrite Z2Nat.id by exact Hn. reflexivity.
+  - (* discrete release: C04's T1 *)
+    destruct (rel_init (s_tk s) None false (s_tab s)) as [|D groups steps] eqn:E; [discriminate|].
+    rewrite (release_schedule (s_tk s) false (s_tab s) D groups steps (of_dt s F) Tb E (S (Z.to_nat n))).
+    rewrite last_map_seq. rewrite Z2Nat.id by exact Hn. reflexivity.
 Qed.
 
 Lemma m_u_spec s n : ok_facts s -> 0 <= n < s_nsteps s -> (m_u s n == sp_u s n)%Q.
